@@ -3,8 +3,12 @@
    delivery order and delay).  The per-endpoint facts Sys.v builds on (fresh id per call, waiter
    registered before the request is written, response handed only to the waiter of its id, one
    handler goroutine per request) are the steps of Link.v, tied to registry.go by the window-level
-   correspondence (C03..C05, C16 checks). *)
-From Verif Require Import Base Sys.
+   correspondence (C03..C05, C16 checks).
+   At the goroutine level (Link.v, LinkInvR.v) [response_reaches_only_its_caller] proves the demultiplexing
+   itself for every schedule: whatever a call returns as coming from the peer (nil error, or an
+   error built from a response) is the payload of a response frame that carried that call's own
+   id, whatever else is in flight and in whatever order frames arrive. *)
+From Verif Require Import Base Link Sys LinkInvR.
 
 Theorem each_call_own_result :
   forall (h : N -> N -> N) s id v,
@@ -27,3 +31,18 @@ Proof.
     vm_compute. reflexivity.
   - reflexivity.
 Qed.
+
+Theorem response_reaches_only_its_caller :
+  forall calls cs s i v r oe,
+    lrun fixed calls linit cs = Some s ->
+    In (EvReturn i v r) (evs s) -> genuine r = Some oe ->
+    exists x, In (N.of_nat i, x, oe) (resp_of cs) /\ v = (if nres1 calls i then zero else x).
+Proof. exact response_routing_lemma. Qed.
+Print Assumptions response_reaches_only_its_caller.
+
+Theorem response_routing_reordered :
+  exists s, lrun fixed rr_calls linit rr_schedule = Some s /\
+            In (EvReturn 0 70%N None) (evs s) /\ In (EvReturn 1 71%N None) (evs s) /\
+            In (EvReturn 2 zero (Some (EApp 5%N))) (evs s).
+Proof. exact response_routing_example. Qed.
+Print Assumptions response_routing_reordered.
